@@ -64,6 +64,10 @@ def run_sim(case):
             my.reader_only = True
             try:
                 for g in ids:
+                    if g < 0:
+                        done_before = dict(completed)
+                        reads.append((r, -1, done_before, "iter", list(my)))
+                        continue
                     was_done = completed.get(g)
                     try:
                         v = my[g]
@@ -123,7 +127,26 @@ def verdicts(case, out):
     for w, ids in enumerate(case["writers"]):
         for g in ids:
             cands.setdefault(g, set()).add(text_of(w, g))
+    import re
     for r, g, was_done, res, val in out["reads"]:
+        if res == "iter":
+            # a concurrent iteration: every yielded text is a complete stored text, ids strictly ascending, and every id whose
+            # store had returned before the iteration started is present
+            ids_seen = []
+            for t in val:
+                m = re.match(r"text-(\d+)-by-writer-(\d+)-", t or "")
+                if not m or t not in cands.get(int(m.group(1)), ()):
+                    v.append(("TextFileStorage/concurrent/iteration-yields-%s" % ("empty-text" if t == "" else "foreign-or-partial-text"),
+                              "reader %d iteration yielded %r" % (r, t)))
+                    break
+                ids_seen.append(int(m.group(1)))
+            else:
+                if ids_seen != sorted(set(ids_seen)):
+                    v.append(("TextFileStorage/concurrent/iteration-not-in-id-order", "reader %d iteration yielded ids %r" % (r, ids_seen)))
+                missing = [g0 for g0 in was_done if g0 not in ids_seen]
+                if missing:
+                    v.append(("TextFileStorage/concurrent/iteration-misses-stored-id", "reader %d iteration yielded ids %r, stores of %r had returned before it started" % (r, ids_seen, missing)))
+            continue
         if res == "ok":
             if val not in cands.get(g, ()):
                 kind = "empty-read" if val == "" else "partial-or-foreign-read"
@@ -164,6 +187,8 @@ def run_case(case, ctx):
     ctx.label("concurrent")
     if case.get("_drawn", True):
         ctx.label("drawn-concurrent")
+    if any(res == "iter" for _, _, _, res, _ in out["reads"]):
+        ctx.label("concurrent-iteration")
     if any(res == "ok" and was_done is None for _, _, was_done, res, _ in out["reads"]):
         ctx.label("read-during-write")
         ctx.nontrivial = True
@@ -217,7 +242,7 @@ def minimize(case, sig):
 
 SMALL = [
     {"kind": "conc", "writers": [[0, 2], [1]], "readers": [[0, 1, 2, 0, 1, 2]], "presize": None, "max_id": 2, "_drawn": False},
-    {"kind": "conc", "writers": [[1], [1, 0]], "readers": [[1, 0, 1]], "presize": 3, "max_id": 2, "_drawn": False},
+    {"kind": "conc", "writers": [[1], [1, 0]], "readers": [[1, -1, 0, 1]], "presize": 3, "max_id": 2, "_drawn": False},
 ]
 
 
@@ -248,7 +273,7 @@ def strategies(tier):
     case = st.fixed_dictionaries({
         "kind": st.just("conc"),
         "writers": st.lists(ids, min_size=1, max_size=3),
-        "readers": st.lists(st.lists(st.integers(0, 6), min_size=1, max_size=6), min_size=1, max_size=2),
+        "readers": st.lists(st.lists(st.one_of(st.integers(0, 6), st.integers(0, 6), st.integers(0, 6), st.just(-1)), min_size=1, max_size=6), min_size=1, max_size=2),
         "presize": st.sampled_from([None, None, 0, 3, 7]),
         "max_id": st.just(6),
         "sched": schedules.strategy(max_dev=8, max_step=900),
